@@ -145,10 +145,9 @@ def estimator_configs():
                                         random_state=0)
         return o, [("a", a), ("b", b), ("b__metric_dict", d)]
 
-    # ALR is fitted without sample_weight here: with weights it fails on rows
-    # without labels (finding of C12), which would hide everything else
-    add("AnnotatorLogisticRegression", "default", alr, "multi", multi=True, weights=False)
-    add("AnnotatorLogisticRegression", "solver_dict={'maxiter':50}", alr_dict, "multi", multi=True, weights=False)
+    add("AnnotatorLogisticRegression", "default", alr, "multi", multi=True)
+    add("AnnotatorLogisticRegression", "solver_dict={'maxiter':50},no sample_weight", alr_dict, "multi", multi=True,
+        weights=False)
     add("AnnotatorEnsembleClassifier", "PWC,PWC(gamma='mean')", aec, "multi", multi=True, sym=True)
 
     # --- regressors
@@ -521,7 +520,6 @@ def main(tier="quick", seed=0):
     chk.extra["not_generated"] = {
         "NICKernelRegressor(metric_dict={'gamma':'mean'})": "not a supported value: predict raises TypeError "
                                                              "(pairwise_kernels gets the string)",
-        "AnnotatorLogisticRegression with sample_weight": "fails on rows without labels (reported under C12)",
         "EstimatedBudgetZliobaite": "abstract base class",
     }
     chk.rule = ("call histories of depth %d enumerated by TLC from FitModel (Fit/PartialFit on 3 data sets, Predict%s; "
